@@ -5,7 +5,8 @@ package search
 // index/tombstones.go whose os.* mutation call sites go through the zzfs shim (translator/fsinstrument).
 //
 // One scenario = an existing index of repository "r" (none / full build with 1-3 shards / full + delta builds
-// (sidecars exist) / alive in a compound shard) + one new build (full with 1-3 shards, delta with 0-2 shards).
+// (sidecars exist) / alive in a compound shard; optionally orphan ".meta" sidecars without shard, as a killed earlier
+// run leaves them) + one new build (full with 1-3 shards, delta with 0-2 shards).
 // For the scenario:
 //   ref   the new build runs undisturbed                                  -> op log L, new digest
 //   kill  for every k < |L|: the build is killed (freeze) before its k-th mutation
@@ -56,6 +57,9 @@ type c12Scenario struct {
 	Old      []c12Build `json:"old"`
 	Compound int        `json:"compound"` // 0 none, 1 compound without sidecar, 2 compound with sidecar
 	New      c12Build   `json:"new"`
+	// Orphan: shard numbers (>= number of old shards) at which a ".meta" sidecar WITHOUT shard waits, as left behind by a
+	// run killed between removing a shard and its sidecar; its FileTombstones hide every file, its branch versions are old.
+	Orphan []int `json:"orphan,omitempty"`
 }
 
 func c12Opts(dir string, b c12Build) index.Options {
@@ -309,6 +313,7 @@ type c12Template struct {
 	oldmeta []int
 	comp    bool
 	cmeta   bool
+	orph    []int
 }
 
 func c12MakeTemplate(t *testing.T, root string, sc c12Scenario) *c12Template {
@@ -398,6 +403,26 @@ func c12MakeTemplate(t *testing.T, root string, sc c12Scenario) *c12Template {
 			t.Fatalf("temp file left in template: %s", e.Name())
 		}
 	}
+	for _, n := range sc.Orphan {
+		if n < tp.nold {
+			t.Fatalf("orphan sidecar at slot %d of an index with %d shards", n, tp.nold)
+		}
+		shard := filepath.Join(tp.dir, fmt.Sprintf("r_v16.%05d.zoekt", n))
+		repo := &zoekt.Repository{Name: "r", ID: 7,
+			Branches:       []zoekt.RepositoryBranch{{Name: "main", Version: "orphan-main"}, {Name: "dev", Version: "orphan-dev"}},
+			FileTombstones: map[string]struct{}{"f0.txt": {}, "f1.txt": {}, "f2.txt": {}, "f3.txt": {}}}
+		tmp, final, err := index.JsonMarshalRepoMetaTemp(shard, repo)
+		if err != nil {
+			t.Fatal(err)
+		}
+		if err := os.Rename(tmp, final); err != nil {
+			t.Fatal(err)
+		}
+		b, _ := os.ReadFile(final)
+		tp.oldMeta[filepath.Base(shard)] = string(b)
+		tp.orph = append(tp.orph, n)
+	}
+	zzfs.Reset(zzfs.Plan{})
 	return tp
 }
 
@@ -537,9 +562,13 @@ func c12GenScenarios(r *vfRand, n int) []c12Scenario {
 		}
 		return sc
 	}
+	withOrphan := func(sc c12Scenario, slots ...int) c12Scenario {
+		sc.Orphan = slots
+		return sc
+	}
 	// systematic core; the first 14 are what the quick tier runs
 	out = append(out,
-		fullOver(1, 1), fullOver(2, 2), fullOver(3, 1), fullOver(0, 2), fullOver(1, 3),
+		fullOver(1, 1), fullOver(2, 2), fullOver(3, 1), fullOver(0, 2), withOrphan(fullOver(1, 3), 1, 2, 5),
 		c12Scenario{Old: []c12Build{full(1, 1, 1)}, New: delta(9, []int{0}, nil, 1)},
 		c12Scenario{Old: []c12Build{full(1, 2, 1)}, New: delta(9, []int{0, 1}, nil, 1)},
 		c12Scenario{Old: []c12Build{full(1, 2, 1)}, New: delta(9, nil, []int{0}, 1)},
@@ -548,8 +577,10 @@ func c12GenScenarios(r *vfRand, n int) []c12Scenario {
 		c12Scenario{Old: []c12Build{full(1, 2, 1), delta(2, []int{1}, nil, 1)}, New: full(9, 2, 3)},
 		c12Scenario{Compound: 1, New: c12Build{Gen: 9, Par: 1, Merging: true, Docs: []c12Doc{doc(9, 0)}}},
 		c12Scenario{Compound: 2, New: c12Build{Gen: 9, Par: 1, Merging: true, Docs: []c12Doc{doc(9, 0), doc(9, 1)}}},
-		c12Scenario{Old: []c12Build{full(1, 2, 1)}, New: full(9, 2, 3)},
+		withOrphan(c12Scenario{Old: []c12Build{full(1, 1, 1)}, New: delta(9, []int{0}, nil, 1)}, 1),
 	)
+	out = append(out, c12Scenario{Old: []c12Build{full(1, 2, 1)}, New: full(9, 2, 3)}, withOrphan(fullOver(0, 2), 0, 1), withOrphan(fullOver(2, 3), 2),
+		withOrphan(c12Scenario{Old: []c12Build{full(1, 2, 1), delta(2, []int{1}, nil, 1)}, New: delta(9, []int{0}, []int{1}, 1)}, 3, 4))
 	for o := 0; o <= 3; o++ {
 		for m := 1; m <= 3; m++ {
 			out = append(out, fullOver(o, m))
@@ -573,6 +604,7 @@ func c12GenScenarios(r *vfRand, n int) []c12Scenario {
 			sc.New.Merging = true
 		default:
 			o := r.Intn(4)
+			nOld := o
 			if o > 0 {
 				sc.Old = []c12Build{full(1, o, 1)}
 				nd := r.Intn(3)
@@ -587,6 +619,7 @@ func c12GenScenarios(r *vfRand, n int) []c12Scenario {
 						}
 					}
 					sc.Old = append(sc.Old, delta(2+d, ch, rm, 1))
+					nOld += len(ch)
 				}
 			}
 			if o > 0 && r.Chance(45) {
@@ -603,6 +636,12 @@ func c12GenScenarios(r *vfRand, n int) []c12Scenario {
 			} else {
 				sc.New = full(9, 1+r.Intn(3), par)
 				sc.New.Merging = r.Chance(20)
+			}
+			if r.Chance(25) {
+				sc.Orphan = []int{nOld + r.Intn(3)}
+				if r.Chance(40) {
+					sc.Orphan = append(sc.Orphan, sc.Orphan[0]+1)
+				}
 			}
 		}
 		out = append(out, sc)
@@ -642,6 +681,10 @@ func TestVerifC12(t *testing.T) {
 			sort.Ints(tp.oldmeta)
 			om = cNatList(tp.oldmeta)
 		}
+		orph := "(@nil nat)"
+		if len(tp.orph) > 0 {
+			orph = cNatList(tp.orph)
+		}
 		build := fmt.Sprintf("(mkBuild %s %d %s %d %s %s %s)", cBool(sc.New.Delta), tp.nold, om, nnew, cBool(tp.comp), cBool(tp.cmeta), cBool(sc.New.Merging))
 		nArtifacts := nnew
 		if sc.New.Delta {
@@ -673,12 +716,12 @@ func TestVerifC12(t *testing.T) {
 			if len(rr.ops) > 0 {
 				ops = cList(rr.ops)
 			}
-			coq := cTuple(build, ops, cBool(killed), cBool(rr.err != nil), rows)
-			key := vfKey(build, ops, killed, rr.err != nil, rows)
+			coq := cTuple(build, orph, ops, cBool(killed), cBool(rr.err != nil), rows)
+			key := vfKey(build, orph, ops, killed, rr.err != nil, rows)
 			nontrivial := !seen[key] && (killed || kind != "ref")
 			seen[key] = true
 			win := c12Window(rr, nArtifacts, refDel)
-			class := []string{"run=" + kind, "window=" + win, fmt.Sprintf("old=%d/meta=%d/comp=%v", tp.nold, len(tp.oldmeta), tp.comp), fmt.Sprintf("new=%d/delta=%v", nnew, sc.New.Delta)}
+			class := []string{"run=" + kind, "window=" + win, fmt.Sprintf("old=%d/meta=%d/comp=%v", tp.nold, len(tp.oldmeta), tp.comp), fmt.Sprintf("new=%d/delta=%v", nnew, sc.New.Delta), fmt.Sprintf("orphan-sidecars=%d", len(tp.orph))}
 			vfCase(coq, key, nontrivial, class, map[string]any{"scenario": string(scJSON), "run": kind, "k": k, "ops": rr.kind, "view": rr.obs.rows, "err": fmt.Sprint(rr.err)})
 		}
 		emit("ref", L, ref, false)
@@ -690,7 +733,10 @@ func TestVerifC12(t *testing.T) {
 				continue
 			}
 			stale := (!sc.New.Delta && (scode != 2 || mcode != 0)) || (sc.New.Delta && !((scode == 1 && mcode == 2) || (scode == 2 && mcode == 0)))
-			if stale {
+			if stale && len(tp.orph) > 0 && slot-1 >= tp.nold && mcode == 1 {
+				vfOracleFail("success-incomplete:orphan-sidecar-adopted", "an undisturbed successful build leaves its new shard under a left-over .meta of an earlier killed run (stale file tombstones / branch versions in effect): row "+row,
+					map[string]any{"scenario": sc, "view_rows(slot,shard,sidecar)": ref.obs.rows, "old_view": oldObs.rows})
+			} else if stale {
 				vfOracleFail("complete-run-leaves-stale-files", "after an undisturbed successful build an old shard or old sidecar is still in effect: row "+row,
 					map[string]any{"scenario": sc, "view_rows(slot,shard,sidecar)": ref.obs.rows, "old_view": oldObs.rows})
 			}
@@ -748,6 +794,34 @@ func TestVerifC12(t *testing.T) {
 				}
 				if len(rr.obs.broken) > 0 {
 					vfOracleFail("truncated-or-unloadable-shard-visible:fault", "after a failed operation a visible *.zoekt does not load: "+strings.Join(rr.obs.broken, "; "), replay("fail/"+m, j, rr))
+				}
+				// a failing operation must not make a repository that was indexed before disappear (the run reports the
+				// error, but nothing would serve the repository until the next successful run)
+				if oldObs.hasRepo && !rr.obs.hasRepo {
+					vfOracleFail("repo-missing:fault:"+failed, "after a failed "+failed+" the repository is not served at all although it was indexed before (Finish error: "+fmt.Sprint(rr.err)+")", replay("fail/"+m, j, rr))
+				}
+				// ---- crash prefixes of the FAULTY run: the fault at j, then a kill before a later operation. Only faults of the
+				// install phase (renames / removals / SetTombstone steps) change what later operations do.
+				if m != "fail" || !(failed == "Rename" || failed == "Rename(SetTombstone)" || (failed == "Remove" && j < len(rr.log) && !strings.HasSuffix(rr.log[j].Args[0], ".tmp")) || (failed == "CreateTemp" && j < len(rr.log) && strings.Contains(rr.log[j].Args[1], "compound-"))) {
+					continue
+				}
+				Lf := len(rr.log)
+				var ks []int
+				for k := j + 1; k < Lf; k++ {
+					ks = append(ks, k)
+				}
+				if vfTier() != "thorough" && len(ks) > 1 {
+					ks = []int{ks[r.Intn(len(ks))]}
+				}
+				for _, k := range ks {
+					fk := c12Do(t, sroot, 1+2*L+j*(L+2)+k, tp, sc.New, zzfs.Plan{Fail: []zzfs.Sel{{Seq: j, Mode: "fail"}}, Kill: &zzfs.Sel{Seq: k}, KillMode: "freeze"})
+					emit("fail+kill", k, fk, true)
+					if len(fk.obs.broken) > 0 {
+						vfOracleFail("truncated-or-unloadable-shard-visible:fault+kill", "after a failed "+failed+" and a kill a visible *.zoekt does not load: "+strings.Join(fk.obs.broken, "; "), replay("fail+kill", k, fk))
+					}
+					if oldObs.hasRepo && !fk.obs.hasRepo {
+						vfOracleFail("repo-missing:fault+kill:"+failed, "after a failed "+failed+" and a kill the repository is not served at all although it was indexed before", replay(fmt.Sprintf("fail@%d+kill", j), k, fk))
+					}
 				}
 			}
 		}
